@@ -19,6 +19,9 @@ func NewVarPool() *VarPool {
 	for _, id := range goReservedKeywords {
 		vars[id] = 1
 	}
+	for _, id := range generatorLocalIdentifiers {
+		vars[id] = 1
+	}
 
 	return &VarPool{
 		vars: vars,
